@@ -348,3 +348,44 @@ Definition read_one (c : rconn) : option rconn :=
                            (combine (seq 0 (length (rc_free c))) (rc_free c))) (rc_send_window c))
     else None
   end.
+
+(* ------------------------------------------------------------------ *)
+(** * Stream credit follows the buffer (the repair of `proxy-wedged`)
+
+    Per stream a connection reads into: [sb_free] = the free space of the
+    stream's buffer ([available_space], what the next DATA frame is read
+    into), [sb_owed] = DATA bytes received and not yet credited back
+    ([recv_credit_owed]).  We announce SETTINGS_INITIAL_WINDOW_SIZE =
+    [announced_stream_window capacity]; with [owed] bytes not credited the
+    peer may still send [announced - owed].  [handle_data_frame] adds the wire
+    payload of a DATA frame (not ending the stream) to [owed];
+    [release_stream_credit], run after the other connection of the session
+    wrote, grants what keeps the peer's window within the free space. *)
+Definition announced_stream_window (capacity : Z) : Z := Z.min DEFAULT_INITIAL_WINDOW_SIZE capacity.
+
+Record sbuf := mksb { sb_free : Z; sb_owed : Z }.
+
+Definition peer_window (announced : Z) (b : sbuf) : Z := Z.max 0 (announced - sb_owed b).
+
+Definition sb_grant (announced : Z) (b : sbuf) : Z :=
+  Z.min (Z.max 0 (sb_free b - peer_window announced b)) (sb_owed b).
+
+Inductive sbev :=
+| SData (wire : Z)     (* a DATA frame (not END_STREAM) is read into the buffer *)
+| SDrain (n : Z)       (* the other connection wrote: n bytes of buffer space are free again *)
+| SRelease.            (* release_stream_credit *)
+
+(** next state, and the stream WINDOW_UPDATE queued by the step (0 = none) *)
+Definition sb_step (announced : Z) (b : sbuf) (e : sbev) : sbuf * Z :=
+  match e with
+  | SData wire => (mksb (sb_free b - wire) (sb_owed b + wire), 0)
+  | SDrain n => (mksb (sb_free b + n) (sb_owed b), 0)
+  | SRelease => let g := sb_grant announced b in (mksb (sb_free b) (sb_owed b - g), g)
+  end.
+
+Fixpoint sb_run (announced : Z) (b : sbuf) (evs : list sbev) : sbuf * list Z :=
+  match evs with
+  | [] => (b, [])
+  | e :: r => let '(b1, g) := sb_step announced b e in
+              let '(b2, gs) := sb_run announced b1 r in (b2, g :: gs)
+  end.
